@@ -325,6 +325,54 @@ fn check_schema(ctx: &mut Ctx, b: &[u8], root: &R, seed: u64) {
     }
 }
 
+/// A `PointerTree` is an object with a history: it is used, more paths are added, it is used again
+/// (also on another document in between). Whatever it remembers from earlier calls must not show:
+/// the tree grown in steps gives what a tree built at once gives.
+fn check_grown_tree(ctx: &mut Ctx, b: &[u8], paths: &[Vec<PathEl>], seed: u64) {
+    if paths.len() < 2 {
+        return;
+    }
+    let ex = exact(b);
+    let mut r = Rng::new(seed);
+    let mut fresh = PointerTree::new();
+    for p in paths {
+        fresh.add_path(&to_pointer(p));
+    }
+    let mut grown = PointerTree::new();
+    let cut1 = 1 + r.below(paths.len() as u64 - 1) as usize;
+    let cut2 = cut1 + r.below((paths.len() - cut1) as u64 + 1) as usize;
+    for p in &paths[..cut1] {
+        grown.add_path(&to_pointer(p));
+    }
+    let _ = sonic_rs::get_many(&ex[..], &grown);
+    let _ = unsafe { sonic_rs::get_many_unchecked(&ex[..], &grown) };
+    for p in &paths[cut1..cut2] {
+        grown.add_path(&to_pointer(p));
+    }
+    // in between: another document (shorter arrays, other keys)
+    let _ = sonic_rs::get_many(&b"{\"a\":[1],\"outer\":{\"k1\":[]},\"arr\":[0]}"[..], &grown);
+    let _ = sonic_rs::get_many(&ex[..], &grown);
+    for p in &paths[cut2..] {
+        grown.add_path(&to_pointer(p));
+    }
+    ctx.ops(2);
+    for unchecked in [false, true] {
+        let render = |t: &PointerTree| -> Result<Vec<Option<String>>, String> {
+            let res = if unchecked { unsafe { sonic_rs::get_many_unchecked(&ex[..], t) } } else { sonic_rs::get_many(&ex[..], t) };
+            res.map(|v| v.into_iter().map(|o| o.map(|l| l.as_raw_str().to_string())).collect()).map_err(|e| e.to_string())
+        };
+        let (f, g) = (render(&fresh), render(&grown));
+        // the unchecked variant is only defined when every path resolves
+        if unchecked && f.as_ref().map(|v| v.iter().any(|o| o.is_none())).unwrap_or(true) {
+            continue;
+        }
+        if f != g {
+            ctx.fail(if unchecked { "grown-tree-differs:get_many_unchecked" } else { "grown-tree-differs:get_many" }, format!("{} paths added in three steps with calls in between: {:?}; the tree built at once gives {:?}", paths.len(), g.map(|v| v.len()).map_err(|e| crate::core::truncate(&e, 100)), f.map(|v| v.len()).map_err(|e| crate::core::truncate(&e, 100))));
+        }
+    }
+    ctx.class("set:grown-tree");
+}
+
 impl Check for C11 {
     fn id(&self) -> &'static str {
         "C11"
@@ -415,6 +463,7 @@ impl Check for C11 {
                 if ps.is_empty() {
                     continue;
                 }
+                check_grown_tree(ctx, doc.as_bytes(), ps, seed ^ ps.len() as u64);
                 check_get_many(ctx, doc.as_bytes(), &d.root, ps, false);
                 if ps.iter().all(|p| lookup(&d.root, p).is_ok()) {
                     check_get_many(ctx, doc.as_bytes(), &d.root, ps, true);
@@ -442,6 +491,7 @@ impl Check for C11 {
             ctx.class("set:checked");
             check_get_many(ctx, b, &d.root, &ps, false);
             check_get_many(ctx, b, &d.root, &ps, true);
+            check_grown_tree(ctx, b, &ps, r.next());
         }
         if matches!(d.root.k, K::Obj(_)) {
             check_schema(ctx, b, &d.root, r.next());
@@ -450,6 +500,6 @@ impl Check for C11 {
         ctx.sample("doc");
     }
     fn required_classes(&self, _b: &str, _t: Tier) -> Vec<&'static str> {
-        vec!["set:checked", "set:all-resolve", "set:some-missing", "set:repeated-path", "schema:checked", "set:deep-member", "set:wide"]
+        vec!["set:checked", "set:all-resolve", "set:some-missing", "set:repeated-path", "schema:checked", "set:deep-member", "set:wide", "set:grown-tree"]
     }
 }
